@@ -1,135 +1,9 @@
-// shared by units `goto` and `hover`: the document cursor of features.rs, the symbol table model, range traits for table entries, shims
-//~assume Range<usize>::clone returns an equal range (assume_specification through vstd's `cloned`)
-pub assume_specification<Idx: Clone> [<Range<Idx> as Clone>::clone] (r: &Range<Idx>) -> (c: Range<Idx>)
-    ensures cloned(r.start, c.start), cloned(r.end, c.end);
-
-//@include inc_symtab.rs
-
-// R7 stand-ins: lsp_types::Location (same public fields), url::Url and color_eyre's Report as opaque types
-#[verifier::external_body]
-pub struct Url { pub opaque: u8 }
-#[verifier::external_body]
-pub struct Report { pub opaque: u8 }
-pub struct Location { pub uri: Url, pub range: PosRange }
-
-//@extract spl_frontend/src/lib.rs :: struct AnalyzedSource
-//@ rewrite drop_derive
-//@end
-//@extract lsp4spl/src/features.rs :: struct Ident
-//@ rewrite drop_derive pub_fields
-//@end
-//@extract lsp4spl/src/features.rs :: struct DocumentCursor
-//@ rewrite pub_fields
-//@end
-
-pub open spec fn range_in(ts: Seq<Token>, r: Range<usize>) -> bool {
-    (r.start < r.end && r.end <= ts.len()) || (!(r.start < r.end) && r.end < ts.len())
-}
-pub open spec fn text_range_of(ts: Seq<Token>, r: Range<usize>) -> Range<usize> {
-    if r.start < r.end { ts[r.start as int].range.start..ts[r.end - 1].range.end } else { ts[r.end as int].range.end..ts[r.end as int].range.end }
-}
-pub trait ToRange {
-    spec fn range_spec(&self) -> Range<usize>;
-    fn to_range(&self) -> (r: Range<usize>)
-        ensures r == self.range_spec();
-}
-pub trait ToTextRange {
-    spec fn node_range(&self) -> Range<usize>;
-    fn to_text_range(&self, tokens: &[Token]) -> (r: Range<usize>)
-        requires range_in(tokens@, self.node_range()),
-        ensures r == text_range_of(tokens@, self.node_range());
-}
-//@extract spl_frontend/src/ast.rs :: impl ToRange for AstInfo
-//@ open
-    open spec fn range_spec(&self) -> Range<usize> { self.range }
-//@end
-//@extract spl_frontend/src/ast.rs :: impl ToTextRange for AstInfo
-//@ rewrite range_is_empty
-//@ open
-    open spec fn node_range(&self) -> Range<usize> { self.range }
-//@end
-//@extract spl_frontend/src/ast.rs :: derive ToRange :: struct Identifier
-//@ open
-    open spec fn range_spec(&self) -> Range<usize> { self.info.range }
-//@end
-//@extract spl_frontend/src/ast.rs :: derive ToTextRange :: struct Identifier
-//@ open
-    open spec fn node_range(&self) -> Range<usize> { self.info.range }
-//@end
-//@extract spl_frontend/src/table.rs :: impl ToRange for VariableEntry
-//@ open
-    open spec fn range_spec(&self) -> Range<usize> { self.range }
-//@end
-//@extract spl_frontend/src/table.rs :: impl ToRange for ProcedureEntry
-//@ open
-    open spec fn range_spec(&self) -> Range<usize> { self.range }
-//@end
-//@extract spl_frontend/src/table.rs :: impl ToRange for TypeEntry
-//@ open
-    open spec fn range_spec(&self) -> Range<usize> { self.range }
-//@end
-//@extract spl_frontend/src/table.rs :: impl ToRange for GlobalEntry
-//@ open
-    open spec fn range_spec(&self) -> Range<usize> { match self { GlobalEntry::Procedure(p) => p.range, GlobalEntry::Type(t) => t.range } }
-//@end
-//@extract spl_frontend/src/table.rs :: impl ToRange for Entry<'_>
-//@ open
-    open spec fn range_spec(&self) -> Range<usize> { match self { Entry::Type(t) => t.range, Entry::Procedure(p) => p.range, Entry::Variable(v) => v.range, Entry::Parameter(v) => v.range } }
-//@end
-//@extract spl_frontend/src/table.rs :: impl ToTextRange for GlobalEntry
-//@ rewrite drop_crate_path
-//@ open
-    open spec fn node_range(&self) -> Range<usize> { match self { GlobalEntry::Procedure(p) => p.name.info.range, GlobalEntry::Type(t) => t.name.info.range } }
-//@end
-//@extract spl_frontend/src/table.rs :: impl ToTextRange for Entry<'_>
-//@ rewrite drop_crate_path
-//@ open
-    open spec fn node_range(&self) -> Range<usize> { match self { Entry::Type(t) => t.name.info.range, Entry::Procedure(p) => p.name.info.range, Entry::Variable(v) => v.name.info.range, Entry::Parameter(v) => v.name.info.range } }
-//@end
-
-// ---------- shims
-//~assume `&v[r]` for a range r is the sub-slice from r.start to r.end (std slice indexing; panics unless r.start <= r.end <= len)
-#[verifier::external_body]
-pub fn slice_range<'a>(tokens: &'a [Token], r: Range<usize>) -> (s: &'a [Token])
-    requires r.start <= r.end <= tokens@.len(),
-    ensures s@ == tokens@.subrange(r.start as int, r.end as int),
-{ &tokens[r] }
-#[verifier::external_body]
-pub fn string_eq_str(a: &String, b: &str) -> (r: bool)
-    ensures r == (a@ == b@),
-{ a == b }
-
-// ---------- vocabulary of C12
-/// "predefined entities": the names the symbol table is initialised with (table/initialization.rs :: DEFAULT_ENTRIES)
-pub uninterp spec fn predefined(name: Seq<char>) -> bool;
-//~assume `Entry::is_default` answers whether the entry's name is one of DEFAULT_ENTRIES (array `contains` over &str; named `predefined`)
-//@extract spl_frontend/src/table.rs :: impl Entry<'_> :: fn is_default
-//@ ret b
-//@ sig
-        ensures b == (match *self { Entry::Type(t) => predefined(t.name.value@), Entry::Procedure(p) => predefined(p.name.value@), _ => false }),
-//@ assume_body fn is_default
-//@end
-/// the token under the cursor, if it is an identifier
-pub open spec fn ident_at(ts: Seq<Token>, index: usize, from: int) -> Option<Token>
-    decreases ts.len() - from
-{
-    if from < 0 || from >= ts.len() { None }
-    else if ts[from].range.start <= index < ts[from].range.end { Some(ts[from]) }
-    else { ident_at(ts, index, from + 1) }
-}
-//~assume `DocumentCursor::ident` (iter().find + `?`) returns the first token whose range contains the cursor index, as an Ident with that token's name and text range, if it is an identifier token
+// the cursor vocabulary plus `DocumentCursor::ident` by contract only (its body is verified in unit `cursor`)
+//@include inc_cursor_types.rs
+//~assume `DocumentCursor::ident` returns the first token whose range contains the cursor index, as an Ident with that token's name and text range, if it is an identifier token (proved in unit `cursor`, used here by contract)
 //@extract lsp4spl/src/features.rs :: impl DocumentCursor :: fn ident
 //@ ret r
 //@ sig
-        ensures match ident_at(self.doc.tokens@, self.index, 0) {
-            Some(t) => match t.token_type { TokenType::Ident(name) => r == Some(Ident { value: name, range: t.range }), _ => r is None },
-            None => r is None },
+        ensures same_ident(r, cursor_ident(*self)),
 //@ assume_body fn ident
 //@end
-/// what the cursor's identifier is (None on non-identifiers and whitespace)
-pub open spec fn cursor_ident(cursor: DocumentCursor) -> Option<Ident> {
-    match ident_at(cursor.doc.tokens@, cursor.index, 0) { Some(t) => match t.token_type { TokenType::Ident(name) => Some(Ident { value: name, range: t.range }), _ => None }, None => None }
-}
-pub open spec fn scope_of<'a>(doc: &'a AnalyzedSource, p: &'a ProcedureEntry) -> LookupTable<'a> {
-    LookupTable { global_table: Some(&doc.table), local_table: Some(&p.local_table) }
-}
